@@ -276,3 +276,49 @@ def boundary_seeds(s, want=2, span=48000):
         if o and o != 'none' and not o.startswith(('panic', 'harness')):
             seeds += [bytes.fromhex(x) for x in o.split(',')]
     return seeds[:want]
+
+
+def steer_forgeries(rng, s):
+    """(tag, z, h) under a t1 = 0 key with public seed `rho`: z is a single coefficient d * X^0 in polynomial 0, chosen so that
+    one coefficient of w' = A z (in coefficient form: d * NTT^-1(A_hat[i][0])) lands on a corner of Decompose / UseHint, with
+    the hint bit set there.  Returns (rho, list)."""
+    p = R.PARAMS[s]
+    g2 = p['gamma2']
+    m = (Q - 1) // (2 * g2)
+    lim = p['gamma1'] - p['beta'] - 1
+    for _ in range(50):
+        rho = bytes(rng.randrange(256) for _ in range(32))
+        a = R.intt(R.rej_ntt_poly(rho + bytes([0, 0])))      # A[0][0] in coefficient form
+        targets = [('r0 = 0, r1 = 0 (hint wraps to m-1)', 0), ('r0 = 0, r1 = 1', 2 * g2), ('r0 = 0, r1 = m-1', (m - 1) * 2 * g2), ('r0 = +gamma2', g2),
+                   ('r0 = -gamma2+1', g2 + 1), ('r+ - r0 = q-1 corner', Q - 1), ('r1 = m-1, r0 > 0 (hint wraps to 0)', (m - 1) * 2 * g2 + 5), ('r0 = 1', 2 * g2 * 3 + 1), ('r0 = -1', 2 * g2 * 3 - 1)]
+        out = []
+        for tag, tgt in targets:
+            found = None
+            for n in rng.sample(range(256), 256):
+                if a[n] == 0:
+                    continue
+                d = tgt * pow(a[n], -1, Q) % Q if tgt else None
+                if tgt == 0:
+                    continue
+                d = R.modpm(d, Q)
+                if d != 0 and abs(d) <= lim:
+                    found = (n, d)
+                    break
+            if tgt == 0:
+                # w' coefficient 0 needs d = 0 : the all-zero z gives w' = 0 everywhere
+                z = [[0] * 256 for _ in range(p['l'])]
+                h = [[0] * 256 for _ in range(p['k'])]
+                h[0][rng.randrange(256)] = 1
+                out.append((tag, z, h))
+                continue
+            if found is None:
+                continue
+            n, d = found
+            z = [[0] * 256 for _ in range(p['l'])]
+            z[0][0] = d
+            h = [[0] * 256 for _ in range(p['k'])]
+            h[0][n] = 1
+            out.append((tag, z, h))
+        if len(out) >= 6:
+            return rho, out
+    return rho, out
